@@ -65,3 +65,56 @@ Definition W5 (s : state) : Prop := forall p, pl s = PLive p ->
   (pdone p <> [] -> evwork_due s) /\
   (pshut p = true -> pstarted p = 0 ->
      evwork_due s \/ (exists l, ohst s = HCompl l) \/ In FFree (todo s) \/ act s (own s) = APut SPost).
+
+(* ---------- per-item status machine and trace counters ---------- *)
+Definition istep (it : nat -> ist) (l : label) : option (nat -> ist) :=
+  match l with
+  | LSubmit _ i => match it i with IIdle => Some (upd it i IQ) | _ => None end
+  | LLocal _ i => match it i with IIdle => Some (upd it i ILQ) | _ => None end
+  | LWork _ i => match it i with IQ => Some (upd it i IW) | ILQ => Some (upd it i ILW) | _ => None end
+  | LRet _ i => match it i with IW => Some (upd it i IR) | ILW => Some (upd it i ILR) | _ => None end
+  | LCompl _ i => match it i with IR | ILR => Some (upd it i IIdle) | _ => None end
+  | _ => Some it
+  end.
+
+Definition is_sub (i : nat) (l : label) : bool :=
+  match l with LSubmit _ j | LLocal _ j => Nat.eqb i j | _ => false end.
+Definition is_wk (i : nat) (l : label) : bool := match l with LWork _ j => Nat.eqb i j | _ => false end.
+Definition is_rt (i : nat) (l : label) : bool := match l with LRet _ j => Nat.eqb i j | _ => false end.
+Definition is_cp (i : nat) (l : label) : bool := match l with LCompl _ j => Nat.eqb i j | _ => false end.
+Definition count (f : label -> bool) (tr : list label) : nat := length (filter f tr).
+
+(* 1 if the item is past the given stage of its current flight *)
+Definition st_sub (x : ist) : nat := match x with IIdle => 0 | _ => 1 end.
+Definition st_wk (x : ist) : nat := match x with IW | IR | ILW | ILR => 1 | _ => 0 end.
+Definition st_rt (x : ist) : nat := match x with IR | ILR => 1 | _ => 0 end.
+Definition is_pooled (x : ist) : bool := match x with IQ | IW | IR => true | _ => false end.
+Definition is_localst (x : ist) : bool := match x with ILQ | ILW | ILR => true | _ => false end.
+
+(* was the current flight of item i started by a pool submission (Some true), a NULL-pool submission
+   (Some false), or is the item not in flight (None) *)
+Fixpoint flight (i : nat) (tr : list label) (acc : option bool) : option bool :=
+  match tr with
+  | [] => acc
+  | l :: r =>
+    flight i r (match l with
+                | LSubmit _ j => if Nat.eqb i j then Some true else acc
+                | LLocal _ j => if Nat.eqb i j then Some false else acc
+                | LCompl _ j => if Nat.eqb i j then None else acc
+                | _ => acc
+                end)
+  end.
+
+Definition pitems_of (s : state) : list nat := match pl s with PLive p => pitems p | _ => [] end.
+Definition pdone_of (s : state) : list nat := match pl s with PLive p => pdone p | _ => [] end.
+
+(* where an item in flight is *)
+Definition SI (s : state) : Prop := forall i,
+  match items s i with
+  | IIdle => True
+  | IQ => In i (pitems_of s) \/ (exists t, act s t = ASubmit i SBefore) \/ (exists w last, wpc_of s w = WTake i last)
+  | IW => exists w last, wpc_of s w = WWork i last
+  | IR => (exists w last, wpc_of s w = WRet i last) \/ In i (pdone_of s) \/ (exists l, ohst s = HCompl l /\ In i l)
+  | ILQ => In i (lq s ++ lbatch s)
+  | ILW | ILR => In i (lbatch s)
+  end.
